@@ -406,8 +406,9 @@ func (d *LineDetector) buildLines(lineGroups [][]text.TextFragment, pageWidth fl
 		// Calculate indentation (distance from left margin)
 		line.Indentation = line.BBox.X
 
-		// Skip lines that are too narrow
-		if line.BBox.Width < d.config.MinLineWidth {
+		// Skip lines that are too narrow - unless they carry text: a narrow line
+		// (a lone "i", a page number set in a small font) is still content
+		if line.BBox.Width < d.config.MinLineWidth && strings.TrimSpace(line.Text) == "" {
 			continue
 		}
 
